@@ -14,7 +14,8 @@ total_infidelity_nonneg pulse_correlations_sum_to_total
 infidelity_congr_cm infidelity_lipschitz_cm absIntegral_is_integrate infidelity_scaling_law
 infidelity_perm_opers infidelity_perm_opers_entries infidelity_traceless_noise_opers
 infidelity_branches_agree '''.split()
-LEAN_MODULES = ['FFVerif.Props.C08', 'FFVerif.Props.C08Inv', 'FFVerif.Props.C08Integrand']
+LEAN_MODULES = ['FFVerif.Props.C08', 'FFVerif.Props.C08Inv', 'FFVerif.Props.C08Integrand', 'FFVerif.Props.C09EtmFnShapes']
+THEOREMS = THEOREMS + ['FFVerif.C09.decay_amplitudes_posSemidef', 'FFVerif.C09.summed_decay_amplitudes_posSemidef']   # PSD decay amplitudes for non-negative spectra
 # module C08Integrand (models Integrand / IntegrandShape): every branch of _get_integrand, filter-function path =
 # control-matrix path (also in the parsimonious loop and for pulse correlations), correlations sum to the total,
 # exactly the documented rejections
